@@ -21,7 +21,7 @@ CLAIMED = {
                      'operation and by full-pool sweeps with a dict reference model; separate I/O-fault configuration '
                      '(EIO/ENOSPC/EACCES/short write inside a mutating call, one-shot or lasting until the call returns) for the file and compact '
                      'backends on SimFS; about one case in 200 is a three-phase history in three separately started interpreters; about one in eight is a '
-                     'concurrent-writers case (2-3 processes or threads with disjoint but colliding addresses under the scheduler). Bulk stores may name one address twice; about 4% of the compact histories run on bundles extended (sparsely) beyond 4 GiB.',
+                     'concurrent-writers case (2-3 processes or threads with disjoint but colliding addresses under the scheduler). Payloads range up to 200 KB with sizes around 64 KiB / 128 KiB; bulk stores may name one address twice; about 4% of the compact histories run on bundles extended (sparsely) beyond 4 GiB.',
                 note='trusted: SimFS for file/compact backends; sqlite-based backends run on a real tmpfs directory outside the '
                      'simulator (sequential, fault-free only; a second connection waits 0.3 s of real time for a locked database); sampling of histories, not exhaustive',
                 technique='deterministic simulation: model-based history checking against a reference map on a simulated file system with I/O-fault injection'),
@@ -32,7 +32,7 @@ CLAIMED = {
                      'reconstructed and read back through a fresh cache object (thorough: all crash points of each history; '
                      'quick: a seeded sample of 10 per history). Oracle: old / complete new / allowed-missing, never '
                      'truncated or foreign bytes, bystanders unchanged; then a continuation on the post-crash state (the '
-                     'interrupted store repeated, another single colour stored at the victim address, stores to other addresses, a remove - in alternating order) must behave like a map '
+                     'interrupted store repeated (victim tiles may come as image files instead of images in memory), another single colour stored at the victim address, stores to other addresses, a remove - in alternating order) must behave like a map '
                      'and keep bundles structurally valid.',
                 note='trusted: process-death crash model (page-cache survives, syscalls ordered, page-granular tears), SimFS '
                      'journal replay; histories are sampled, crash points per history are enumerated',
@@ -70,7 +70,7 @@ CLAIMED = {
                      'and attributable to one fetch, final cache holds only correct in-grid tiles incl. every served tile '
                      '(API + raw walk), one fetch per meta tile, termination. A rare lock-identity case starts two fresh interpreters with '
                      'different hash seeds and compares the lock file names they derive for the same tiles and bundles. Backends include linked '
-                     'single-colour tiles (one shared file per colour, written without a tile lock of its own). Worker processes may start together (each builds its cache when its first request runs). File-cache cases may carry a dimension value per client (judged per value). Backends also include mbtiles, per-level sqlite, geopackage and per-level geopackage caches: the SQLite calls are pre-emption points and busy waits run in simulated time, requests run inside cache sessions. With bulk_meta_tiles the source may have nothing (BlankImage) for some tiles of a meta tile: the others must still be stored once, without refetching.',
+                     'single-colour tiles (one shared file per colour, written without a tile lock of its own). Symlinked single-colour backends may run under a refresh rule with a colour file older than the rule. Threads may be switched between two statements of the tile-manager / cache code (line events). Worker processes may start together (each builds its cache when its first request runs). File-cache cases may carry a dimension value per client (judged per value). Backends also include mbtiles, per-level sqlite, geopackage and per-level geopackage caches: the SQLite calls are pre-emption points and busy waits run in simulated time, requests run inside cache sessions. With bulk_meta_tiles the source may have nothing (BlankImage) for some tiles of a meta tile: the others must still be stored once, without refetching.',
                 note='trusted: stub source (TileManager-level runs) or simulated HTTP transport behind HTTPClient.open (about 20% of the '
                      'runs go through the full WSGI application built by the real loader: TMS/WMTS/KML/WMS-C/WMS GetMap), SimFS '
                      'flock/rename semantics, pre-emption at seam calls only',
@@ -82,14 +82,14 @@ CLAIMED = {
                      'file cache (also with symlinked single-colour tiles) on SimFS or per-level sqlite cache, plus two or three concurrent requests under a refresh rule (the upstream may answer in no time, so that a request is overtaken between its freshness check and its lock); oracle from the timestamps actually recorded: stale tile => '
                      'upstream asked, tile rewritten with the new fetch generation; fresh tile => no upstream call, same '
                      'generation; a failed refresh never removes or changes the stored tile; a tile written during a request is recorded with '
-                     'the time of that write even when the source reports older data; single stored tiles may be aged (mixed-age meta tiles); a disk error may hit the store of a refreshed tile (the old tile must survive); an optional transparent overlay source may fail softly (the uncacheable result must not be stored); the seeding tile manager carries the cache\'s own refresh_before; absolute thresholds also arrive as datetime objects; the tile manager may be built by the real loader (two grids); same-second band unspecified. Cases run in seeded '
+                     'the time of that write even when the source reports older data; single stored tiles may be aged (mixed-age meta tiles) or disappear; bulk_meta_tiles deployments fetch tile by tile; a disk error may hit the store of a refreshed tile (the old tile must survive); an optional transparent overlay source may fail softly (the uncacheable result must not be stored); the seeding tile manager carries the cache\'s own refresh_before; absolute thresholds also arrive as datetime objects; the tile manager may be built by the real loader (two grids); same-second band unspecified. Cases run in seeded '
                      'fixed-offset local time zones or one with daylight-saving time in force.',
                 note='trusted: simulated clock behind time.time/time.sleep/datetime.now of util/times.py, stub upstream, SimFS mtimes; '
                      'sqlite backend outside the simulator',
                 technique='deterministic simulation: simulated clock + simulated upstream with failure injection, model-based history checking'),
     'C20': dict(level='exploration', ref='DESIGN.md 6.10',
                 text='seeded histories of GETs, conditional GETs (If-None-Match current/previous/garbage, If-Modified-Since '
-                     'before/equal/after/previous/ancient/malformed in the three HTTP-date spellings), clock advances, rewrites through the real expiry path and upstream-500 '
+                     'before/equal/after/previous/ancient/malformed in the three HTTP-date spellings), clock advances and set-backs, rewrites through the real expiry path and upstream-500 '
                      'periods against the full WSGI application built by the real loader (TMS, KML, WMTS REST/KVP, WMS-C; file '
                      'cache on SimFS - also with sym- or hard-linked single-colour tiles - or per-level sqlite cache; single and meta tiles; one source or two merged sources of which only the overlay fails) with a simulated upstream behind '
                      'HTTPClient.open; oracle: identical validators and body while the fetch generation in the pixels is '
@@ -102,7 +102,7 @@ CLAIMED = {
     'C12': dict(level='exploration', ref='DESIGN.md 6.6',
                 text='seeded cache contents (tiles stored at seeded simulated times, some in the same second; foreign objects: a '
                      'second cache, lock files, stray files) x one cleanup task (level list / range / open and zero-ended ranges / all; remove_all, remove_before as '
-                     'absolute time / relative age / file mtime, default; full extent, bbox (grid SRS or EPSG:4326), polygon or multi-part coverage; seeded fixed-offset local time zone and file time-stamp granularity; a deep variant places tiles around the bundle borders of levels 8/9 of a twelve-level pyramid; an earlier cleanup task of the same run may precede the task under test; directories may be older than their tiles; removals may take seconds; a temporary file may vanish while the cleanup walks its directory; tiles may be stored again before the cleanup; the clock of the cleanup may be behind the newest tiles; factor-2, sqrt2 and custom-resolution grids) built by the real '
+                     'absolute time / relative age / file mtime, default; full extent, bbox (grid SRS or EPSG:4326), polygon or multi-part coverage; seeded fixed-offset local time zone and file time-stamp granularity; a deep variant places tiles around the bundle borders of levels 8/9 of a twelve-level pyramid; an earlier cleanup task of the same run may precede the task under test; directories may be older than their tiles; removals may take seconds; a temporary file may vanish while the cleanup walks its directory; tiles may be stored again before the cleanup; the cache may have a coverage of its own; the clock of the cleanup may be behind the newest tiles; factor-2, sqrt2 and custom-resolution grids) built by the real '
                      'CleanupConfiguration and executed by the real cleanup() - all three strategies, with the real '
                      'TileCleanupWorker threads under the scheduler - on file (6 layouts, linked single-colour tiles, cache-level refresh_before), compact v1/v2 (SimFS), sqlite, mbtiles, '
                      'geopackage (tmpfs); oracle from recorded timestamps and independent geometry: must-remove / must-keep / '
@@ -112,7 +112,7 @@ CLAIMED = {
     'C11': dict(level='exploration', ref='DESIGN.md 6.5',
                 text='seeded seed tasks (factor-2 / sqrt2 / custom-resolution grids, non-square extents, ll/ul origin, level '
                      'subsets given as lists, ranges (open, zero-ended, beyond the grid) or resolutions, bbox / concave / multi-part / single-tile coverages and two coverages per seed entry in the grid SRS or EPSG:4326, another seeding process holding the cache lock of one of two caches for a while, grids with near-coincident tile borders, one or two caches per seed entry, meta sizes, skip_geoms_for_last_levels, progress cadence, '
-                     'per-hand-off simulated work time) run through the real seed()/TileWalker/SeedProgress/ProgressLog/ProgressStore '
+                     'cache meta_buffer 0-200, per-hand-off simulated work time) run through the real seed()/TileWalker/SeedProgress/ProgressLog/ProgressStore '
                      'with a recording pool at the hand-off; uninterrupted run compared with a brute-force shapely oracle over whole '
                      'levels (complete up to one pixel of the finest selected level, minimal up to a one-pixel band); then the same task with 1-3 seeded interruptions '
                      '(exception or hard kill at a hand-off, at a line event of the seeding code via sys.settrace, inside the '
